@@ -104,6 +104,10 @@ def cases(draw, modes):
         if draw(st.booleans()):
             # the usual way to write hard communities down: an integer 0/1(/2) matrix
             u = [[int(draw(st.sampled_from([1, 1, 2]))) if x else 0 for x in r] for r in u]
+    if mode in ("initial", "sequences") and draw(st.integers(0, 5)) == 0:
+        # large rates (Poisson means far above 1): weights become large integers
+        f = draw(st.sampled_from([6, 10]))
+        u = [[x * f for x in r] for r in u]
     case = {"mode": mode, "N": N, "K": K, "u": u, "w": w, "hard_memberships": hard,
             "exact_dyadic": draw(st.booleans()),
             "burn_in": draw(st.integers(0, 30)),
@@ -264,6 +268,10 @@ def _classify(case, ctx):
     ctx.label("mcmc steps >= 10" if steps >= 10 else "mcmc steps < 10")
     if case.get("hard_memberships"):
         ctx.label("hard memberships (zero-rate hyperedges possible)")
+    if max(x for r in case["u"] for x in r) > 4:
+        ctx.label("large rates (u scaled by 6 or 10)")
+    if all(isinstance(x, int) for r in case["u"] for x in r):
+        ctx.label("integer membership matrix")
     if case["burn_in"] == 0:
         ctx.label("no burn-in")
     if case["intermediate"] == 0:
@@ -585,12 +593,12 @@ def tp_cases(draw):
     us = draw(st.lists(st.one_of(st.sampled_from(U_POOL),
                                  st.floats(0.0, 1.0, exclude_max=True)),
                        min_size=n, max_size=n))
-    return {"lambda": lam, "u": us, "scalar": n == 1 and draw(st.booleans())}
+    return {"lambda": lam, "u": us, "scalar": n == 1 and draw(st.booleans()),
+            "seed": draw(S.seeds)}
 
 
 def check_truncated_poisson(case, ctx):
     import importlib
-    from scipy import stats
     mod = importlib.import_module("hypergraphx.generation.hy_mmsbm_sampling")
     lam, us = case["lambda"], case["u"]
     consulted = []
@@ -621,14 +629,18 @@ def check_truncated_poisson(case, ctx):
                 % (l, u, y), key="tp-range")
         if u <= 1e-7 or u >= 1 - 1e-7:
             tail = True
-        # quantile property where double precision can express it
-        if 1e-3 <= l <= 60 and 1e-9 <= u <= 1 - 1e-9:
-            p0 = float(np.exp(-l))
-            cdf = lambda k: (float(stats.poisson.cdf(k, l)) - p0) / (1.0 - p0)
-            require(cdf(y) >= u - 1e-9 and (y == 1 or cdf(y - 1) <= u + 1e-9),
-                    lambda: "sample_truncated_poisson(rate %r), uniform draw %r -> %r is not the "
-                            "quantile of the truncated law: F(%d)=%r, F(%d)=%r"
-                    % (l, u, y, y - 1, cdf(y - 1), y, cdf(y)), key="tp-quantile")
+    # reproducibility from the Generator alone: two equally seeded Generators give the same
+    # weights whatever the state of numpy's global generator is
+    outs = []
+    for g in (1, 2):
+        np.random.seed(g)
+        outs.append(np.atleast_1d(np.asarray(
+            mod.sample_truncated_poisson(arg, rng=np.random.default_rng(case.get("seed", 0))),
+            dtype=float)).tolist())
+    require(outs[0] == outs[1],
+            lambda: "sample_truncated_poisson(%r) with two Generators seeded %d gave %r and %r "
+                    "(numpy's global generator was seeded differently before the two calls)"
+            % (arg, case.get("seed", 0), outs[0], outs[1]), key="tp-not-reproducible")
     ctx.label("tail_draw" if tail else "central_draw", "scalar" if case["scalar"] else "array")
     ctx.nontrivial(tail)
 
